@@ -56,8 +56,12 @@ package tagstree
 //@   site call make #1:
 //@     assert [never-allocates-more-than-the-file-holds] endOff >= startOff && int64(endOff) <= fileInfo.Size()
 //@ end
+// (also C09: the = / != matcher path over rotated tags trees walks the entries
+// with this cursor arithmetic; a TSID list is skipped or read as exactly 8
+// bytes per TSID of a 16-bit count, without wrap-around — the loop invariants
+// below are what a wrong width breaks)
 //@ func (*TagTreeReader).getOrInsertMatchingTSIDs
-//@   props C18
+//@   props C18 C09
 //@   requires ttr != nil && ttr.fd != nil && len(ttr.metadataBuf) % 16 == 0
 //@   safe
 //@   loop 1:
